@@ -221,6 +221,12 @@ def go_calls(text, header):
             p = p.strip().split()
             if len(p) == 2:
                 env[p[0]] = p[1]
+        # parameters of function literals inside the body (a closure handed to a helper): typed like the function's own
+        for lm in re.finditer(r"func\s*\(([^()]*)\)", body[fm.end() - fm.start():]):
+            for p in lm.group(1).split(","):
+                p = p.strip().split()
+                if len(p) == 2 and p[0] not in env:
+                    env[p[0]] = p[1]
         for am in re.finditer(r"(\w+)\s*:=\s*(C\.\w+)\(", body):
             if am.group(2).startswith("C.pathrs_") and am.group(2)[2:] in header.funcs:
                 env[am.group(1)] = "ret:" + am.group(2)[2:]
